@@ -289,6 +289,14 @@ def replay(i):
                         kp.dump(doc1, fpath(root, p))
                 except Exception:  # noqa
                     ok = False
+            elif a['act'] == 'redump':
+                try:
+                    top = os.path.join(root, p[0].split('/')[0])
+                    if p[0] and os.path.isdir(top):
+                        shutil.rmtree(top)                 # the caller removes the output directory ...
+                    kp.dump(doc1, fpath(root, p))          # ... and dumps there again
+                except Exception:  # noqa
+                    ok = False
             elif a['act'] == 'dump_empty':
                 try:
                     kp.dump(doc1, fpath(root, p), **empty_options())
